@@ -7,6 +7,9 @@ use gpa_verif::runner::Drive;
 use std::time::Instant;
 
 fn main() {
+    if let Ok(c) = std::env::var("VERIF_C19_STOP_CASE") {
+        c19::stop_child(&c);
+    }
     let params = Params::from_env();
     gpa_verif::hmacsha::self_test();
     let known = Known::load(&params.prop);
@@ -17,11 +20,13 @@ fn main() {
         "C02" => {
             let n = params.share(if th { 20_000_000 } else { 240_000 });
             Drive { params: &params, stats: &mut stats, known: &known }.run("c02.rbac", 2, c02::strategy(), n, c02::eval);
+            Drive { params: &params, stats: &mut stats, known: &known }.run_words("c02.rbac", "rbac", |w| Some(c02::case_from_words(w)), c02::eval);
             (c02::RULE.into(), vec!["rule documents are delivered as JSON accepted by the agent's serde types", "mode and defaultAccess take their documented values (any letter case)", "identity attributes compare as exact strings (normalised paths only are generated)"])
         }
         "C03" => {
             let n = params.share(if th { 10_000_000 } else { 240_000 });
             Drive { params: &params, stats: &mut stats, known: &known }.run("c03.authz", 3, c03::strategy(), n, c03::eval);
+            Drive { params: &params, stats: &mut stats, known: &known }.run_words("c03.authz", "authz", |w| Some(c03::case_from_words(w)), c03::eval);
             (c03::RULE.into(), vec!["pure half: proxy_authorizer::authorize is what the listener calls with the record's destination and claims (the end-to-end half checks that)"])
         }
         "C04" => {
@@ -29,6 +34,8 @@ fn main() {
             Drive { params: &params, stats: &mut stats, known: &known }.run("c04.canon", 4, c04::strategy(), n, c04::eval);
             let n2 = params.share(if th { 6_000_000 } else { 100_000 });
             Drive { params: &params, stats: &mut stats, known: &known }.run("c04.own", 5, c04::own_strategy(), n2, c04::eval_own);
+            Drive { params: &params, stats: &mut stats, known: &known }.run_words("c04.canon", "canon", |w| if w.next() % 2 == 0 { Some(c04::case_from_words(w, false)) } else { None }, c04::eval);
+            Drive { params: &params, stats: &mut stats, known: &known }.run_words("c04.own", "canon", |w| if w.next() % 2 == 1 { Some(c04::case_from_words(w, true)) } else { None }, c04::eval_own);
             (c04::RULE.into(), vec!["the host canonicalises as documented in hyper_client.rs and the property statement; the order among parameters is only checked up to the two admissible lexicographic orders", "header sets (unique names); duplicates belong to C05"])
         }
         "C19" => {
@@ -38,6 +45,8 @@ fn main() {
             Drive { params: &params, stats: &mut stats, known: &known }.run("c19.dumps", 191, c19::dump_strategy(), n, c19::eval_dump);
             let n = params.share(if th { 60_000 } else { 1_200 });
             Drive { params: &params, stats: &mut stats, known: &known }.run("c19.events", 192, c19::ev_strategy(), n, c19::eval_ev);
+            let n = params.share(if th { 20_000 } else { 400 });
+            Drive { params: &params, stats: &mut stats, known: &known }.run("c19.stop", 193, c19::stop_strategy(), n, c19::eval_stop);
             let _ = std::fs::remove_dir_all(format!("{}.work", params.out));
             (c19::RULE.into(), vec!["instance APIs of the rolling logger, the event logger and the rule-dump writer, on scratch directories", "files left by an earlier run were produced with the same settings"])
         }
@@ -57,11 +66,14 @@ fn main() {
             Drive { params: &params, stats: &mut stats, known: &known }.run("c20.runs", 20, c20::runs_strategy(), n, c20::eval_runs);
             let n = params.share(if th { 2_000_000 } else { 40_000 });
             Drive { params: &params, stats: &mut stats, known: &known }.run("c20.notify", 21, c20::notify_strategy(), n, c20::eval_notify);
+            Drive { params: &params, stats: &mut stats, known: &known }.run_words("c20.runs", "health", |w| if w.next() % 2 == 0 { Some(c20::runs_from_words(w)) } else { None }, c20::eval_runs);
+            Drive { params: &params, stats: &mut stats, known: &known }.run_words("c20.notify", "health", |w| if w.next() % 2 == 1 { Some(c20::notify_from_words(w)) } else { None }, c20::eval_notify);
             (c20::RULE.into(), vec!["StatusState::update_state and ServiceState::update_service_state_entry are the only writers of the reported health and notification decisions"])
         }
         "C13" => {
             let n = params.share(if th { 2_000_000 } else { 40_000 });
             Drive { params: &params, stats: &mut stats, known: &known }.run("c13.pure", 13, c13::pure_strategy(), n, c13::eval_pure);
+            Drive { params: &params, stats: &mut stats, known: &known }.run_words("c13.pure", "trunc", |w| Some(c13::pure_from_words(w)), c13::eval_pure);
             (c13::RULE_PURE.into(), vec!["part A calls the public functions directly; parts B/C reach the same code through the listener and the key keeper"])
         }
         other => {
